@@ -247,6 +247,25 @@ fn shared() -> Vec<V> {
     out
 }
 
+/// long values: lists, dotted lists and vectors of every length 1..=top (distinct elements), long
+/// strings and symbols, a long vector as the last element / the tail position of a list
+fn long_values(top: usize) -> Vec<V> {
+    let int = |i: usize| Value::Number(Number::Integer(i as i32));
+    let mut out = vec![];
+    for n in 1..=top {
+        let items: Vec<V> = (1..=n).map(int).collect();
+        out.push(list_of(items.clone(), nil()));
+        out.push(list_of(items.clone(), Value::Symbol("end".into())));
+        out.push(Value::Vector(ValueReference::new_mutable(items.clone())));
+        if n % 5 == 0 {
+            out.push(list_of(items.clone(), Value::Vector(ValueReference::new_mutable(items.clone()))));
+            out.push(list_of(vec![Value::Symbol("y".repeat(n)), Value::Character('c')], Value::Number(Number::Real(n as f32 + 0.5))));
+            out.push(Value::Vector(ValueReference::new_immutable(vec![list_of(items.clone(), int(0)), list_of(items, nil())])));
+        }
+    }
+    out
+}
+
 /// single-child nesting chains of the three constructors to the given depth
 fn chains(depth: usize) -> Vec<V> {
     let mut cur: Vec<V> = vec![Value::Number(Number::Integer(7)), Value::Symbol("a".into())];
@@ -374,6 +393,8 @@ pub fn run(ctx: &Ctx) -> i32 {
     }
     tvals.extend(chains(6));
     tvals.extend(shared());
+    let long_top = if ctx.thorough() { 600 } else { 300 };
+    tvals.extend(long_values(long_top));
     let ntrees = tvals.len() as u64;
     // Value is !Send (Rc): hand the trees out by index from per-thread regenerated copies
     let tacc = par::sweep(
@@ -387,6 +408,7 @@ pub fn run(ctx: &Ctx) -> i32 {
             }
             t.extend(chains(6));
             t.extend(shared());
+            t.extend(long_values(long_top));
             (Interp::must_new(), t)
         },
         |(it, t), acc: &mut Acc, i| {
@@ -432,7 +454,7 @@ pub fn run(ctx: &Ctx) -> i32 {
             exhaustive: true,
             rule: format!("reals: {}; integers within 2^12 of 0, +-2^15, +-2^24, +-2^31; all reduced ratios n/d with |n|<=40, d<=40 plus i32 boundary ratios; every Unicode scalar value as a character; every identifier of length <= 3 over {:?} that is one identifier token; results of the C09 grid; every value tree with <= {} nodes over 15 atom representatives (incl. the symbol quote as a list head) (proper lists, dotted tails, mutable and literal vectors, empty vectors in tails) all single-child nesting chains to depth 6, and values in which one vector object occurs two or three times; distinct = distinct printed texts (floats: a 1/4099 subsample)", if thorough { "all 2^32 bit patterns (finite ones judged)".to_string() } else { "every exponent x sign x 4096 high mantissa patterns x low bits {0,1,all ones}".to_string() }, ident_alphabet().iter().collect::<String>(), max_nodes),
             bounds: json!({"reals": n_float, "integers": n_int, "ratios": n_rat, "characters": n_char, "identifiers": n_id, "trees": ntrees, "tree_max_nodes": max_nodes}),
-            assumptions: vec!["atoms take the path display -> real Lexer -> Interpreter::read_literal; non-float atoms, every 64th float and all trees additionally go through eval of the quoted text".into()],
+            assumptions: vec!["atoms take the path display -> real Lexer -> Interpreter::read_literal; non-float atoms, every 64th float and all trees additionally go through eval of the quoted text; lists, dotted lists and vectors of every length <= 300 (thorough 600) with distinct elements, long symbols, a long vector in tail position".into()],
             wall_s: ctx.elapsed(),
             extra: json!({}),
         },
